@@ -130,6 +130,13 @@ package raft
 //@ inv [I7] persTerm == r.currentTerm && persVote == r.votedFor
 //@ inv [I13] r.state == Leader ==> forall fid string :: fid in r.followers ==> r.followers[fid].nextIndex <= Llast + 1
 //@ inv [Isnap] r.snapshot != nil ==> sfWriter[r.snapshot] && !sfPublished[r.snapshot]
+// Iseq: a snapshot that is being received was created after every published snapshot, so that it
+// is the one the storage hands out once it is published (creation numbers are below sfNext).
+//@ inv [Iseq] 0 <= snapSeq && snapSeq < sfNext
+//@ inv [Iseq2] forall f int :: sfSeq[f] < sfNext
+//@ inv [Iseq3] r.snapshot != nil ==> snapSeq < sfSeq[r.snapshot]
+// Isnap2: the snapshot files a leader keeps open per follower are readers (closing one publishes nothing)
+//@ inv [Isnap2] forall fo *follower :: fo.snapshot != nil ==> !sfWriter[fo.snapshot] && allocated(fo.snapshot)
 //@ inv [Iopen] (r.state != Shutdown ==> logOpen) && (r.configuration == nil ==> logOpen)
 //@ inv [I11] r.operationManager != nil && r.operationManager.leaderLease != nil
 //@ inv [I11b] r.operationManager.pendingReadOnly != nil && r.operationManager.pendingReplicated != nil
@@ -321,7 +328,10 @@ package raft
 //@   requires [pre-I11c] forall o *Operation :: o in r.operationManager.pendingReadOnly ==> o != nil
 //@   requires [pre-L] 0 <= Llast
 //@   requires [pre-I6b] forall fid string :: fid in r.followers ==> r.followers[fid] != nil
+//@   requires [pre-readers] forall fo *follower :: fo.snapshot != nil ==> !sfWriter[fo.snapshot] && allocated(fo.snapshot)
 //@   ensures [config] r.configuration == next
+//@   ensures [snap-frame] snapSeq == old(snapSeq) && snapIndex == old(snapIndex) && snapTerm == old(snapTerm) && sfNext == old(sfNext) && sfSeq == old(sfSeq)
+//@   ensures [readers] forall fo *follower :: fo.snapshot != nil ==> !sfWriter[fo.snapshot] && allocated(fo.snapshot)
 //@   ensures [I6b] forall fid string :: fid in r.followers ==> r.followers[fid] != nil
 //@   ensures [state] r.state == old(r.state) || (old(r.state) == Leader && r.state == Follower)
 //@   ensures [stepdown-on-removal] !(r.id in next.Members) ==> r.state != Leader
@@ -336,6 +346,8 @@ package raft
 //@   loop range r.configuration.Members invariant [nextIndex] old(forall fid string :: fid in r.followers ==> r.followers[fid].nextIndex <= Llast + 1) ==> forall fid string :: fid in r.followers ==> r.followers[fid].nextIndex <= Llast + 1
 //@   loop range next.Members invariant [nextIndex] old(forall fid string :: fid in r.followers ==> r.followers[fid].nextIndex <= Llast + 1) ==> forall fid string :: fid in r.followers ==> r.followers[fid].nextIndex <= Llast + 1
 //@   loop range r.configuration.Members invariant [I6b] forall fid string :: fid in r.followers ==> r.followers[fid] != nil
+//@   loop range r.configuration.Members invariant [readers] forall fo *follower :: fo.snapshot != nil ==> !sfWriter[fo.snapshot] && allocated(fo.snapshot)
+//@   loop range next.Members invariant [readers] forall fo *follower :: fo.snapshot != nil ==> !sfWriter[fo.snapshot] && allocated(fo.snapshot)
 //@   loop range next.Members invariant [I6b] forall fid string :: fid in r.followers ==> r.followers[fid] != nil
 
 // ===========================================================================================
@@ -347,6 +359,7 @@ package raft
 //@   requires [pre-nonnil] r.stateStorage != nil && r.operationManager != nil && r.followers != nil && r.logger != nil
 //@   requires [pre-I6b] forall id string :: id in r.followers ==> r.followers[id] != nil
 //@   requires [pre-term] term >= r.currentTerm
+//@   requires [pre-readers] forall fo *follower :: fo.snapshot != nil ==> !sfWriter[fo.snapshot] && allocated(fo.snapshot)
 //@   ensures [state] r.state == Follower && r.currentTerm == term && r.leaderID == leaderID
 //@   ensures [G2] term == old(r.currentTerm) ==> r.votedFor == old(r.votedFor)
 //@   ensures [vote-cleared] term > old(r.currentTerm) ==> r.votedFor == ""
@@ -354,6 +367,8 @@ package raft
 //@   ensures [tables-empty] r.operationManager != nil && r.operationManager.leaderLease != nil && r.operationManager.pendingReplicated != nil && r.operationManager.pendingReadOnly != nil && (forall k uint64 :: !(k in r.operationManager.pendingReplicated)) && (forall o *Operation :: !(o in r.operationManager.pendingReadOnly))
 //@   ensures [lease-fresh] r.operationManager.leaderLease.expiration <= now && now >= old(now)
 //@   ensures [snapshot-reset] r.snapshot == nil
+//@   ensures [snap-frame] snapSeq == old(snapSeq) && snapIndex == old(snapIndex) && snapTerm == old(snapTerm) && sfNext == old(sfNext) && sfSeq == old(sfSeq)
+//@   ensures [readers] forall fo *follower :: fo.snapshot != nil ==> !sfWriter[fo.snapshot] && allocated(fo.snapshot)
 //@   ensures [answered-mono] forall c int :: old(answered[c]) ==> answered[c]
 //@   ensures [config-future-failed] r.configurationResponseCh == nil && (old(r.configurationResponseCh) != nil ==> answered[old(r.configurationResponseCh)])
 
@@ -375,6 +390,8 @@ package raft
 
 //@ func Raft.resetSnapshotFiles
 //@   flags inline lockheld
+//@   loop range r.followers invariant [readers] forall fo *follower :: fo.snapshot != nil ==> !sfWriter[fo.snapshot] && allocated(fo.snapshot)
+//@   loop range r.followers invariant [snap-frame] snapSeq == old(snapSeq) && snapIndex == old(snapIndex) && snapTerm == old(snapTerm) && sfNext == old(sfNext) && sfSeq == old(sfSeq) && sfWriter == old(sfWriter)
 
 //@ func operationManager.notifyLostLeaderShip
 //@   flags inline
@@ -388,6 +405,7 @@ package raft
 //@   requires r.configuration != nil && r.followers != nil && r.stateStorage != nil && r.operationManager != nil && r.log != nil && r.logger != nil
 //@   requires r.operationManager.leaderLease != nil
 //@   requires forall id string :: id in r.followers ==> r.followers[id] != nil
+//@   requires forall fo *follower :: fo.snapshot != nil ==> !sfWriter[fo.snapshot] && allocated(fo.snapshot)
 //@   requires persTerm == r.currentTerm && persVote == r.votedFor && 0 <= Lfirst && Lfirst <= Llast && r.lastContact <= now && r.state <= Shutdown
 //@   requires r.state != Shutdown ==> logOpen
 //@   ensures [voter-only] !old(r.configuration.IsVoter[r.id]) ==> r.state == old(r.state) && r.currentTerm == old(r.currentTerm) && r.votedFor == old(r.votedFor)
@@ -416,12 +434,15 @@ package raft
 //@   requires [pre-nonnil] r.configuration != nil && r.followers != nil && r.log != nil && r.operationManager != nil && r.logger != nil
 //@   requires [pre-open] logOpen
 //@   requires [pre-I6b] forall id string :: id in r.followers ==> r.followers[id] != nil
+//@   requires [pre-readers] forall fo *follower :: fo.snapshot != nil ==> !sfWriter[fo.snapshot] && allocated(fo.snapshot)
 //@   ensures [state] r.state == Leader && r.currentTerm == old(r.currentTerm) && r.votedFor == old(r.votedFor)
 //@   ensures [noop] Llast == old(Llast) + 1 && Lterm[Llast] == r.currentTerm && Ltyp[Llast] == NoOpEntry && forall i int :: i <= old(Llast) ==> Lterm[i] == old(Lterm[i]) && Ltyp[i] == old(Ltyp[i]) && Ldata[i] == old(Ldata[i])
 //@   ensures [reset] forall fid string :: fid in r.followers ==> r.followers[fid].matchIndex == 0 && r.followers[fid].nextIndex <= Llast + 1
 //@   ensures [I11] r.operationManager != nil && r.operationManager.leaderLease != nil && r.operationManager.pendingReplicated != nil && r.operationManager.pendingReadOnly != nil && (forall o *Operation :: !(o in r.operationManager.pendingReadOnly))
 //@   ensures [lease-fresh] now >= old(now) && (!old(singleMember(r)) ==> r.operationManager.leaderLease.expiration <= now)
 //@   ensures [snapshot-reset] r.snapshot == nil
+//@   ensures [snap-frame] snapSeq == old(snapSeq) && snapIndex == old(snapIndex) && snapTerm == old(snapTerm) && sfNext == old(sfNext) && sfSeq == old(sfSeq)
+//@   ensures [readers] forall fo *follower :: fo.snapshot != nil ==> !sfWriter[fo.snapshot] && allocated(fo.snapshot)
 //@   ensures [answered-mono] forall c int :: old(answered[c]) ==> answered[c]
 //@   ensures [qv-mono] forall o *Operation :: old(allocated(o)) && old(o.quorumVerified) ==> o.quorumVerified
 //@   loop range r.followers invariant [reset] Llast == old(Llast) && forall fid string :: fid in visited ==> r.followers[fid].matchIndex == 0 && r.followers[fid].nextIndex <= Llast + 1
@@ -624,14 +645,24 @@ package raft
 //@ ghost sfPublished map[int]bool
 //@ ghost snapIndex int
 //@ ghost snapTerm int
+// The storage hands out, as "the most recent snapshot", the published snapshot whose FILE WAS
+// CREATED last (the bundled storage names a snapshot directory after its creation time): sfSeq is
+// the creation order of a file, sfNext the next creation number, snapSeq the creation number of the
+// snapshot that SnapshotFile() currently returns (0 if none).
+//@ ghost sfSeq map[int]int
+//@ ghost sfNext int
+//@ ghost snapSeq int
 // fsmIndex: index of the last replicated operation the state machine has absorbed. Apply,
 // Snapshot and Restore are called WITHOUT the node lock, so the lock does not protect it.
 //@ ghost fsmIndex int
 //@ unprotected fsmIndex
 
 //@ iface SnapshotStorage.NewSnapshotFile(lastIncludedIndex, lastIncludedTerm, configuration) (file, err)
-//@   modifies sfIndex, sfTerm, sfConf, sfPos, sfWriter, sfPublished
+//@   modifies sfIndex, sfTerm, sfConf, sfPos, sfWriter, sfPublished, sfSeq, sfNext
 //@   ensures ioOK ==> err == nil
+//@   ensures err == nil ==> sfSeq[file] == old(sfNext) && sfNext == old(sfNext) + 1
+//@   ensures err != nil ==> sfNext == old(sfNext) && sfSeq == old(sfSeq)
+//@   ensures forall g int :: g != file ==> sfSeq[g] == old(sfSeq[g])
 //@   ensures err == nil ==> file != nil && fresh(file) && sfIndex[file] == lastIncludedIndex && sfTerm[file] == lastIncludedTerm && sfConf[file] == configuration && sfPos[file] == 0 && sfWriter[file] && !sfPublished[file]
 //@   ensures forall g int :: g != file ==> sfIndex[g] == old(sfIndex[g]) && sfTerm[g] == old(sfTerm[g]) && sfConf[g] == old(sfConf[g]) && sfPos[g] == old(sfPos[g]) && sfWriter[g] == old(sfWriter[g]) && sfPublished[g] == old(sfPublished[g])
 //@ iface SnapshotStorage.SnapshotFile() (file, err)
@@ -650,10 +681,12 @@ package raft
 //@   ensures forall g int :: g != self ==> sfPos[g] == old(sfPos[g])
 //@   ensures err != nil ==> sfPos[self] == old(sfPos[self])
 //@ iface SnapshotFile.Close() (err)
-//@   modifies sfPublished
+//@   modifies sfPublished, snapSeq, snapIndex, snapTerm
 //@   ensures ioOK ==> err == nil
 //@   ensures err == nil && old(sfWriter[self]) && !old(sfPublished[self]) ==> sfPublished[self]
 //@   ensures forall g int :: g != self ==> sfPublished[g] == old(sfPublished[g])
+//@   ensures err == nil && old(sfWriter[self]) && !old(sfPublished[self]) && sfSeq[self] > old(snapSeq) ==> snapSeq == sfSeq[self] && snapIndex == sfIndex[self] && snapTerm == sfTerm[self]
+//@   ensures !(err == nil && old(sfWriter[self]) && !old(sfPublished[self]) && sfSeq[self] > old(snapSeq)) ==> snapSeq == old(snapSeq) && snapIndex == old(snapIndex) && snapTerm == old(snapTerm)
 //@ iface SnapshotFile.Discard() (err)
 //@   ensures ioOK ==> err == nil
 
@@ -683,6 +716,9 @@ package raft
 //@   at call io.Copy assert [IS.chunk-identity] sfIndex[r.snapshot] == X && sfTerm[r.snapshot] == T
 //@   at call io.Copy assert [IS.offset] request.Offset == sfPos[r.snapshot] && sfWriter[r.snapshot] && !sfPublished[r.snapshot] && X > r.lastIncludedIndex && X > r.lastApplied
 //@   at call r.snapshot.Close assert [IS.publish-label] sfIndex[r.snapshot] == X && sfTerm[r.snapshot] == T && request.Done
+//@   at call r.snapshot.Close assert [IS.publish-newest] lockheld() && sfSeq[r.snapshot] > snapSeq
+//@   at call r.fsm.Restore assert [IS.restore-received] lockheld() && sfIndex[snapshot] == X && sfTerm[snapshot] == T
+//@   at before-assign r.lastApplied assert [IS.applied-is-restored] fsmIndex == newval
 //@   at call r.log.Compact assert [IS.compact-after-applied] r.lastApplied >= X && arg0 == X
 //@   at call r.snapshotStorage.SnapshotFile assert [IS.discard-only-on-mismatch] !(inLog(X) && Lterm[X] == T)
 //@   at call r.log.DiscardEntries assert [IS.discard-args] arg0 == X && arg1 == T
@@ -705,6 +741,7 @@ package raft
 //@   flags inline lockheld
 //@   at call r.snapshotStorage.NewSnapshotFile assert [label] arg0 == r.lastApplied && arg1 == Lterm[r.lastApplied] && r.lastApplied > r.lastIncludedIndex && inLog(r.lastApplied) && r.committedConfiguration != nil && r.committedConfiguration.Index <= r.lastApplied
 //@   at call r.fsm.Snapshot assert [snapshot-exact] fsmIndex == sfIndex[snapshot]
+//@   at call snapshot.Close assert [publish-locked] lockheld() && lastAppliedEntry.Index > r.lastIncludedIndex
 //@   at call r.log.Compact assert [compact-label] arg0 == r.lastIncludedIndex && r.lastIncludedIndex == lastAppliedEntry.Index && r.lastIncludedTerm == lastAppliedEntry.Term && r.lastIncludedIndex <= r.lastApplied
 //@   at before-assign r.lastIncludedIndex assert [included-monotone] newval > r.lastIncludedIndex
 
